@@ -561,11 +561,18 @@ fn run_bad_shipped(w: &mut Worker, i: u64, seed: u64) -> CaseOut {
     let shipped = render(&sign_with(&signed, &signers), Style::Pretty);
     let mut files = built.files.clone();
     files.insert(meta_path(false, 1, "root"), shipped.clone());
+    // half of the cases: the repository also serves newer roots that are correctly signed by a
+    // threshold of the keys the (bad) shipped root lists - the shipped root must be refused all the same
+    let newer = r.below(2) * (1 + r.below(2));
+    for v in 2..2 + newer {
+        let good: Vec<usize> = keys.iter().take(t as usize).copied().collect();
+        files.insert(meta_path(false, v, "root"), render(&sign_with(&root_signed(v, false, FAR, &cfg), &good), Style::Pretty));
+    }
     let tr = MemTransport::new(files);
     let dir = w.case_dir();
     let res = w.rt.block_on(client::load(&shipped, &tr, &dir, &LoadOpts::default(), client::watchdog(w.cfg.tier)));
     out.evals = 1;
-    let label = ["one-short", "foreign-keys", "unsigned"][kind];
+    let label = format!("{}{}", ["one-short", "foreign-keys", "unsigned"][kind], if newer > 0 { ":valid-newer-roots-served" } else { "" });
     if res.is_ok() {
         out.viol(
             format!("bad-shipped-root-accepted:{label}"),
@@ -573,9 +580,9 @@ fn run_bad_shipped(w: &mut Worker, i: u64, seed: u64) -> CaseOut {
         );
     }
     out.h(format!("bad-shipped={label}"));
-    out.fingerprint = Some(format!("shipped|{n}|{t}|{kind}"));
+    out.fingerprint = Some(format!("shipped|{n}|{t}|{kind}|{newer}"));
     out.nontrivial = true;
-    out.desc = Some(obj! {"kind" => "shipped root not self-verifying", "variant" => label, "keys" => format!("{keys:?}"), "threshold" => t, "signed_by" => format!("{signers:?}"), "observed" => format!("{:?}", res.as_ref().map(|_| "ok").map_err(|e| e.text()))});
+    out.desc = Some(obj! {"kind" => "shipped root not self-verifying", "variant" => label.as_str(), "newer_valid_roots_served" => newer, "keys" => format!("{keys:?}"), "threshold" => t, "signed_by" => format!("{signers:?}"), "observed" => format!("{:?}", res.as_ref().map(|_| "ok").map_err(|e| e.text()))});
     w.cleanup(&dir);
     out
 }
@@ -600,7 +607,7 @@ pub fn run(cfg: &Cfg) -> i32 {
     ] {
         required.push(format!("break={b}"));
     }
-    for l in ["chain-len=0", "chain-len=4", "outcome=exact", "outcome=set", "toplevel-epoch=final", "toplevel-epoch=earlier", "bad-shipped=one-short", "toplevel-revoked-keys-refused"] {
+    for l in ["chain-len=0", "chain-len=4", "outcome=exact", "outcome=set", "toplevel-epoch=final", "toplevel-epoch=earlier", "bad-shipped=one-short", "bad-shipped=unsigned:valid-newer-roots-served", "bad-shipped=one-short:valid-newer-roots-served", "toplevel-revoked-keys-refused"] {
         required.push(l.to_string());
     }
     finish(
